@@ -548,6 +548,12 @@ package gldap
 //@ ghost nframes Int
 //@ ghost tlscfg Int
 //@ ghost cancelled Bool
+//@ ghost clock Int
+//@ ghost tclose Int
+//@ ghost tonclose Int
+//@ ghost tdone Int
+//@ ghost twait Int
+//@ ghost tlclose Int
 
 // ---- trusted contracts of net / tls / sync used by the life-cycle properties (A-NET, A-TLS, A-SYNC)
 //@ extern net.Listen
@@ -576,17 +582,22 @@ package gldap
 //@   results c net.Conn, err error
 //@   ensures (err == nil) == !isNilIface(c)
 //@   ensures err == nil ==> iref(c) != 0 && G_cclosed[iref(c)] == 0 && G_tlscfg[iref(c)] == G_tlscfg[iref(l)]
+//@   ensures err != nil && strcontains(errstr(err), "use of closed network connection") ==> G_lclosed[iref(l)]
 //@   panics false
 //@ extern iface:net.Listener.Close
 //@   params l net.Listener
 //@   results err error
 //@   sets G_lclosed[iref(l)] = true
 //@   sets G_listening[iref(l)] = false
+//@   sets G_clock[0] = G_clock[0] + 1
+//@   sets G_tlclose[iref(l)] = G_clock[0]
 //@   panics false
 //@ extern iface:net.Conn.Close
 //@   params c net.Conn
 //@   results err error
 //@   sets G_cclosed[iref(c)] = G_cclosed[iref(c)] + 1
+//@   sets G_clock[0] = G_clock[0] + 1
+//@   sets G_tclose[iref(c)] = G_clock[0]
 //@   panics false
 //@ extern iface:net.Conn.SetReadDeadline
 //@   params c net.Conn, t time.Time
@@ -615,6 +626,7 @@ package gldap
 //@   requires connID > G_maxid[0]
 //@   ensures  err == nil ==> result0 != nil && fresh(result0) && result0.connID == connID && connID != 0 && result0.netConn == netConn && result0.router == router && !isNilIface(result0.logger)
 //@   ensures  err == nil ==> result0.reader != nil && result0.writer != nil && !held(&result0.mu) && !held(&result0.writerMu)
+//@   ensures  unchanged(G_held) && unchanged(G_rheld)
 //@   sets     G_maxid[0] = connID when err == nil
 //@   panics false
 //@   modifies nothing
@@ -626,6 +638,7 @@ package gldap
 //@ func (*gldap.Server).Run
 //@   requires srvOK(s) && !held(&s.mu) && G_maxid[0] == 0 && G_wgcnt[&s.connWg] >= 0
 //@   ensures  !held(&s.mu)
+//@   ensures[C12] err == nil ==> !isNilIface(s.listener) && G_lclosed[iref(s.listener)]
 //@   panics false
 //@   tags C17 C09
 //@ loop 1
@@ -644,9 +657,52 @@ package gldap
 //@   params wg *sync.WaitGroup
 //@   requires wg != nil && G_wgcnt[wg] > 0
 //@   sets G_wgcnt[wg] = G_wgcnt[wg] - 1
+//@   sets G_clock[0] = G_clock[0] + 1
+//@   sets G_tdone[wg] = G_clock[0]
 //@   panics false
 //@ extern (*sync.WaitGroup).Wait
 //@   params wg *sync.WaitGroup
 //@   requires wg != nil
 //@   sets G_waited[wg] = true
+//@   sets G_clock[0] = G_clock[0] + 1
+//@   sets G_twait[wg] = G_clock[0]
 //@   panics false
+
+// A-USER: the OnClose callback does not panic.
+//@ functype gldap.OnCloseHandler
+//@   params f OnCloseHandler, connectionID int
+//@   sets G_onclose[connectionID] = G_onclose[connectionID] + 1
+//@   sets G_clock[0] = G_clock[0] + 1
+//@   sets G_tonclose[connectionID] = G_clock[0]
+//@   panics false
+
+//@ pure connOK(c *conn) bool = c != nil && !isNilIface(c.netConn) && iref(c.netConn) != 0 && !isNilIface(c.logger) && c.router != nil && c.reader != nil && c.writer != nil && !isNilIface(c.shutdownCtx) && c.connID != 0
+//@ func (*gldap.conn).close
+//@   requires c != nil && !isNilIface(c.netConn)
+//@   ensures  G_waited[&c.requestsWg] && G_cclosed[iref(c.netConn)] == old(G_cclosed[iref(c.netConn)]) + 1
+//@   ensures  G_twait[&c.requestsWg] < G_tclose[iref(c.netConn)] && G_twait[&c.requestsWg] > old(G_clock[0]) && G_tclose[iref(c.netConn)] <= G_clock[0]
+//@   ensures  c.netConn == old(c.netConn)
+//@   panics false
+//@   modifies nothing
+//@   tags C08 C12
+
+// teardown of one connection (deferred function of the connection goroutine)
+//@ func (*gldap.Server).Run$1$1
+//@   requires s != nil && !isNilIface(s.logger) && conn != nil && !isNilIface(conn.netConn) && G_wgcnt[&s.connWg] > 0
+//@   ensures  G_cclosed[iref(conn.netConn)] == old(G_cclosed[iref(conn.netConn)]) + 1 && G_waited[&conn.requestsWg]
+//@   ensures  s.onCloseHandler != nil ==> G_onclose[localConnID] == old(G_onclose[localConnID]) + 1 && G_tclose[iref(conn.netConn)] < G_tonclose[localConnID]
+//@   ensures  G_twait[&conn.requestsWg] < G_tclose[iref(conn.netConn)]
+//@   ensures[C12] G_tdone[&s.connWg] > G_tclose[iref(conn.netConn)] && (s.onCloseHandler != nil ==> G_tdone[&s.connWg] > G_tonclose[localConnID])
+//@   ensures  G_wgcnt[&s.connWg] == old(G_wgcnt[&s.connWg]) - 1
+//@   panics false
+//@   modifies nothing
+//@   tags C08
+
+//@ func (*gldap.Server).Stop
+//@   requires s != nil && !isNilIface(s.logger) && !held(&s.mu)
+//@   ensures  !held(&s.mu)
+//@   ensures  result == nil && !isNilIface(s.listener) ==> G_lclosed[iref(s.listener)]
+//@   ensures  result == nil && !(isNilIface(s.listener) && s.shutdownCancel == nil) ==> G_waited[&s.connWg]
+//@   panics false
+//@   modifies nothing
+//@   tags C12
